@@ -41,6 +41,8 @@ pub struct FaultCounts {
     pub clock: u64,
     #[serde(default)]
     pub log_level: u64,
+    #[serde(default)]
+    pub address_space: u64,
 }
 
 impl FaultCounts {
@@ -58,6 +60,7 @@ impl FaultCounts {
         self.heap_layout += o.heap_layout;
         self.clock += o.clock;
         self.log_level += o.log_level;
+        self.address_space += o.address_space;
     }
     pub fn any(&self) -> bool {
         self.hash_reseed
@@ -192,6 +195,9 @@ fn plan_faults(plan: &Plan, out: &Outcome, refs: &mut RefTable) -> (FaultCounts,
     }
     if plan.heap_perturb > 0 {
         f.heap_layout += 1;
+    }
+    if plan.fresh_exec {
+        f.address_space += 1;
     }
     if plan.clock_step_ns > 0 && out.clock_reads > 0 {
         f.clock += 1;
